@@ -513,3 +513,13 @@ Definition lastrect_hdr : hdr := (0, 0, 0, 0, enc_LastRect).
 
 Definition print_fbu_last (pad : Z) (rects : list (hdr * body)) : list Z :=
   [s2c_FramebufferUpdate; pad] ++ p16 65535 ++ concat (map print_rect rects) ++ print_rect (lastrect_hdr, BEmpty).
+
+(* printers of the other server-to-client messages *)
+Definition print_bell : list Z := [s2c_Bell].
+Definition print_cuttext (data : list Z) : list Z := [s2c_ServerCutText; 0; 0; 0] ++ p32 (Z.of_nat (length data)) ++ data.
+Definition print_cuttext_ext (data : list Z) : list Z :=
+  [s2c_ServerCutText; 0; 0; 0] ++ p32 (4294967296 - Z.of_nat (length data)) ++ data.
+Definition print_cmap (first : Z) (entries : list (list Z)) : list Z :=
+  [s2c_SetColourMapEntries; 0] ++ p16 first ++ p16 (Z.of_nat (length entries)) ++ concat entries.
+Definition print_resize (w h : Z) : list Z := [s2c_ResizeFrameBuffer; 0] ++ p16 w ++ p16 h.
+Definition print_xvp (version code : Z) : list Z := [s2c_Xvp; 0; version; code].
